@@ -107,4 +107,15 @@ PROPS = {
         ],
         assumptions=["page.Elements hold only Heading, Paragraph, List, Table and Image elements (others are skipped by the chunker)"],
     ),
+    "C19": dict(
+        gen=[],
+        trusted=[
+            "golang.org/x/net/html is the oracle for tree construction (including the repair of unclosed and misnested markup) and entity decoding: the harness parses the same bytes with the same library and hands the model the body subtree (element names as the codes of C19_Html.v, the attributes role/class/id/rowspan/colspan, text nodes)",
+            "modelled after the code: htmldoc traverseNodeFiltered with its list state (pending items, in-list flag, level, ordered flag), flushPendingList, getTextContent(Recursive), getDirectTextContent, isBlockContainer, shouldSkipElement, parseTable/parseTableRows/parseTableRow (span parsing for digit strings), extractBodyWithMode, exclusionChecker.shouldExclude/shouldExcludeExplicit/isTopLevel/detectTopLevelWrapper/shouldExcludeByPattern/shouldExcludeByLinkDensity, textLength/linkTextLength/countLinks, the presentation of elements by DocumentWithOptions (code and quotes as paragraphs, tables padded to the longest row). strings.TrimSpace is the C13 model",
+            "the class/id regular expression is modelled as a word-boundary matcher over ASCII names and compared with the implementation on the vocabulary and its neighbourhood (290 names); non-ASCII letters that case-fold into a-z (U+212A, U+017F) are not generated",
+            "the link-density threshold density > 0.6 is modelled as 5*linkLen > 3*textLen (exact for lengths below 2^50)",
+            "NOT modelled: TextWithOptions/Markdown rendering (checked by predicates: file, string and EPUB chapter entry points agree, repeated and interleaved mode queries on one reader agree), extractHead/metadata, links as elements",
+        ],
+        assumptions=["element and attribute names as produced by the HTML parser (lower case)"],
+    ),
 }
